@@ -410,8 +410,13 @@ class Prov:
                     res |= out
         else:
             res = set(allt)
-        # mutation through &mut arguments (push, insert, extend, push_str …)
+        # mutation through &mut arguments (push, insert, extend, push_str …) — not for the iterator methods modelled
+        # above that take `&mut self` (find_map, try_fold, any, all, position …): they only advance the iterator,
+        # nothing the callable captured or returned is stored in it
+        advances_only = bool(calls) and is_iter and (meth in FOLD or meth in ITEM_FN)
         for i, a in enumerate(args):
+            if advances_only and i == 0:
+                continue
             if a["k"] in ("Copy", "Move") and not a["place"]["proj"]:
                 tgt = self.mutalias.get((b.key, a["place"]["local"]))
                 if tgt is not None:
@@ -578,8 +583,10 @@ def analyse(roles):
         info = roles.op_fns.get(root)
         how = ""
         verdict = "dirty"
-        if info and info["role"] == "lazy":
-            rb = roles.facts.body(root)
+        rb = roles.facts.body(root)
+        # the case analysis is an argument about one function and the places it switches on: it holds for a lazy operator
+        # and equally for a private function that an operator hands its operand list to (`all`/`some` → one shared body)
+        if (info and info["role"] == "lazy") or (rb is not None and rb.kind == "fn" and root not in roles.op_fns and not (roles.facts.items.get(root, {}).get("exported") or roles.facts.items.get(root, {}).get("reachable")) and switch_places(rb, roles)):
             places = switch_places(rb, roles)
             if places:
                 ok_all = True
